@@ -617,7 +617,10 @@ class StmtMixin(CallMixin):
                     if is_for:
                         if unordered:
                             facts = []
-                            s.locals[vname] = O.set_add(s.locals[vname], s.locals["_cur%d" % ordinal], facts)
+                            old_seen = s.locals[vname]
+                            s.locals[vname] = O.set_add(old_seen, s.locals["_cur%d" % ordinal], facts)
+                            from .speceval import card_in_facts_add
+                            facts.extend(card_in_facts_add(self, old_seen, s.locals[vname], s.locals["_cur%d" % ordinal]))
                             s.assume(*facts)
                         else:
                             s.locals[kname] = V.mk_int(s.locals[kname].t + 1)
